@@ -12,6 +12,9 @@ from ..cg import is_socket_receive, is_socket_send
 from ..mirlib import Body, callee_key
 
 PUSHES = ("Vec::push", "Vec::insert", "Vec::extend_from_slice", "Vec::extend", "Extend::extend", "Vec::append", "String::push_str", "VecDeque::push_back")
+SHRINKERS = ("Vec::resize", "Vec::resize_with", "Vec::truncate", "Vec::clear", "Vec::pop", "Vec::remove", "Vec::swap_remove", "Vec::drain", "Vec::retain",
+             "Vec::split_off", "Vec::dedup", "Vec::dedup_by_key", "HashMap::clear", "HashMap::retain", "HashMap::drain", "VecDeque::clear", "VecDeque::truncate",
+             "String::clear", "String::truncate")
 SORTS = ("slice::sort_by", "slice::sort_by_key", "slice::sort", "slice::sort_unstable_by", "slice::sort_unstable_by_key", "slice::sort_unstable", "slice::sort_by_cached_key")
 
 
@@ -137,6 +140,16 @@ def run(tier, config):
                 rep.add(key + "|fold|" + what[:60], "C08:R2", ok,
                         "%s in arrival order; %s" % (what, "sorted after the loop by %s" % sorted_after[0][2] if ok else
                                                     "no sort keyed on a datagram field follows and the format carries no usable id: the result lists follow arrival order"), t.get("at"))
+            # ---- R4 nothing inside the loop may discard what earlier datagrams contributed: a shrinking / clearing call on a
+            # collection that reaches the result makes the outcome depend on which datagram came last
+            for bi, t, k in calls:
+                base = k.split("@")[0]
+                if base in SHRINKERS and t["args"]:
+                    root = L._container_root(b, t["args"][0])
+                    if _flows_to_result(b, root):
+                        rep.add(key + "|discard|" + base, "C08:R4", False,
+                                "%s on %s inside the reassembly loop can drop fragments stored by earlier datagrams (e.g. a lower-numbered fragment arriving after a higher one)" % (
+                                    base, b.render_operand(t["args"][0], 4, names=True)), t.get("at"))
             # ---- R3 no fragment bypasses the sort (only where a sort exists)
             if sorts:
                 for (sbi, st, sk) in sorts:
@@ -154,7 +167,7 @@ def run(tier, config):
     if config == "baseline":
         rep.floor("reassembly loops", n_loops, 5)
     rep.decided = ["R1 completion by count or silence, never by a single datagram's flag", "R2 ordered folds of datagram data into the result are sorted by a datagram field or placed by id",
-                   "R3 every fragment passes through the sort"]
+                   "R3 every fragment passes through the sort", "R4 no shrinking / clearing call on the fragment store inside the loop"]
     rep.not_decided = ["that all permutations actually yield equal values (needs execution); these are necessary conditions",
                        "duplicate-fragment behaviour beyond the keyed-sink rule"]
     return rep
